@@ -400,7 +400,7 @@ class Interp:
                 out += self.scalars(self.elems(V(sh)), depth + 1, into_colls)
             elif isinstance(sh, Ref) and sh.kind == "obj":
                 c = self.cell(sh)
-                if c.ci is not None and c.ci.is_dataclass:
+                if self.is_record(c.ci):
                     for fv in c.fields.values():
                         out += self.scalars(fv, depth + 1, into_colls)
         return out
@@ -439,7 +439,7 @@ class Interp:
                 self.cell(r).order = src.order  # a view has the order of what it shows
                 self.add(r, self.map_scalars(self.elems(V(sh)), f, (key, "e"), depth + 1))
                 out.add(r)
-            elif isinstance(sh, Ref) and sh.kind == "obj" and self.cell(sh).ci is not None and self.cell(sh).ci.is_dataclass:
+            elif isinstance(sh, Ref) and sh.kind == "obj" and self.is_record(self.cell(sh).ci):
                 src = self.cell(sh)
                 k = (key, "o", sh.key)
                 r = self.obj(k, src.ci, src.site)
@@ -484,9 +484,9 @@ class Interp:
                 out.add(sh)
             elif isinstance(sh, Ref) and sh.kind == "obj":
                 c = self.cell(sh)
-                if c.ci is not None and any(b.rsplit(".", 1)[-1] == "NamedTuple" for b in self.repo.external_bases(c.ci)):
-                    for fv in c.fields.values():
-                        out |= fv
+                if self.is_namedtuple(c.ci):
+                    for n in self.record_fields(c.ci):
+                        out |= self.attr(V(sh), n, c.ci.node, {}, self.module_frame(c.ci.module, ("iter", c.ci.fq))) if n in c.fields else E
                 elif c.ci is not None and self.repo.lookup_method(c.ci, "__iter__") is not None:
                     out |= self.elems(self.call_fn(self.repo.lookup_method(c.ci, "__iter__"), V(sh), [], {}, c.ci.node, None))
                 else:
@@ -497,6 +497,27 @@ class Interp:
             elif isinstance(sh, (Cls, Lib, Fn, Getter, Partial)):
                 out |= self.top(f"iteration over {type(sh).__name__} {getattr(sh, 'fq', getattr(sh, 'name', ''))} is not modelled")
         return frozenset(out)
+
+    # ------------------------------------------------------------------ records
+    def is_record(self, ci: ClassInfo | None) -> bool:
+        """dataclass or NamedTuple: an object that is nothing but its fields."""
+        if ci is None:
+            return False
+        k = ("rec", ci.fq)
+        if k not in self._gen_cache:
+            self._gen_cache[k] = any(c.is_dataclass for c in self.repo.mro(ci)) or self.is_namedtuple(ci)
+        return self._gen_cache[k]
+
+    def is_namedtuple(self, ci: ClassInfo | None) -> bool:
+        return ci is not None and any(b.rsplit(".", 1)[-1] == "NamedTuple" for b in self.repo.external_bases(ci))
+
+    def record_fields(self, ci: ClassInfo) -> list[str]:
+        fields: list[str] = []
+        for c in reversed(self.repo.mro(ci)):
+            for n in c.ann_attrs:
+                if n not in fields:
+                    fields.append(n)
+        return fields
 
     # ------------------------------------------------------------------ enumerations
     def is_enum(self, fq: str) -> bool:
@@ -647,7 +668,7 @@ class Interp:
                 out.add(Tup(tuple(self.retag(it, e, (key, "t", i), extra) for i, it in enumerate(sh.items)), sh.site))
             elif isinstance(sh, Ref) and sh.kind == "coll":
                 out |= self.map_scalars(V(sh), nested, (key, "n"))
-            elif isinstance(sh, Ref) and sh.kind == "obj" and self.cell(sh).ci is not None and self.cell(sh).ci.is_dataclass:
+            elif isinstance(sh, Ref) and sh.kind == "obj" and self.is_record(self.cell(sh).ci):
                 src = self.cell(sh)
                 r = self.obj((key, "o", sh.key), src.ci, src.site)
                 for n, fv in list(src.fields.items()):
@@ -1221,6 +1242,19 @@ class Interp:
                     el = self.elems(V(sh))
                     for i in range(n):
                         parts[i] |= el
+                elif isinstance(sh, Ref) and sh.kind == "obj":
+                    ci = self.cell(sh).ci
+                    names = self.record_fields(ci) if self.is_namedtuple(ci) else []
+                    if names and star is None and len(names) == n:
+                        for i, nm in enumerate(names):
+                            parts[i] |= self.attr(V(sh), nm, t, env, fr)
+                    else:
+                        el = self.elems(V(sh))  # __iter__ of the class, or Top
+                        for i in range(n):
+                            parts[i] |= el
+                elif isinstance(sh, (Cls, Lib, Fn, Getter, Partial)):
+                    for i in range(n):
+                        parts[i] |= self.top(f"unpacking of a {type(sh).__name__}")
                 elif isinstance(sh, Sc):
                     for i in range(n):
                         parts[i].add(replace(sh, none=False, agg=False))
@@ -1762,6 +1796,23 @@ class Interp:
                 out.add(Sc())
             elif isinstance(sh, Top):
                 out.add(sh)
+            elif isinstance(sh, Ref) and sh.kind == "obj":
+                ci = self.cell(sh).ci
+                getitem = self.repo.lookup_method(ci, "__getitem__") if ci is not None else None
+                idx = next(iter(key)).value if len(key) == 1 and isinstance(next(iter(key)), Const) else None
+                if getitem is not None:
+                    out |= self.call_fn(getitem, V(sh), [key], {}, e, fr, caller_env=env)
+                elif self.is_namedtuple(ci):
+                    names = self.record_fields(ci)
+                    if isinstance(idx, int) and not isinstance(idx, bool) and -len(names) <= idx < len(names):
+                        out |= self.attr(V(sh), names[idx], e, env, fr)
+                    else:
+                        for nm in names:
+                            out |= self.attr(V(sh), nm, e, env, fr)
+                else:
+                    out |= self.top(f"`{norm(e, 50)}`: subscript of an instance of {ci.name if ci else 'an object'}")
+            else:
+                out |= self.top(f"`{norm(e, 50)}`: subscript of a {type(sh).__name__}")
         return frozenset(out)
 
     def dict_lookup(self, ref: Ref, key: frozenset, node: ast.AST, fr: Frame) -> frozenset:
@@ -1795,7 +1846,7 @@ class Interp:
                     v = c.fields[name]
                     if (sh.key, name) in self.stale:
                         self.stale_reads.append((self.site(fr, node), self.where(fr, node), name))
-                    if c.ci is not None and c.ci.is_dataclass:
+                    if self.is_record(c.ci):
                         tag = f"fld:{c.ci.name}.{name}"
                         v = self.map_scalars(v, lambda s, tag=tag: replace(s, srcs=s.srcs | {tag}), (id(node), fr.inv, "fld"))
                     out |= v
@@ -2237,6 +2288,12 @@ class Interp:
             return V(r)
         if name in ("clear", "popitem"):
             return NONE_V
+        if name == "most_common":
+            return V(self.coll((id(call), fr.inv, "items", sh.key), self.site(fr, call), frozenset(Tup((k, v), "") for k, v in c.entries)))
+        if name == "elements":
+            return V(self.coll((id(call), fr.inv, "keys", sh.key), self.site(fr, call), frozenset().union(*[k for k, _ in c.entries]) if c.entries else E))
+        if name in ("fromkeys",) and args:
+            return self.lib("dict.fromkeys", args, kwargs, call, env, fr)
         return self.top(f"dict method {name}")
 
     # ------------------------------------------------------------------ library functions
@@ -2474,6 +2531,18 @@ class Interp:
                 for n in list(self.cell(o).fields):
                     self.store_entry(d, V(Const(n)), self.attr(V(o), n, call, env, fr))
             return V(d)
+        if name in ("collections.Counter", "Counter"):
+            # multiset: keys are the distinct elements, values are counts
+            r = self.dict_(key, site)
+            for a in args:
+                for el in self.elems(a):
+                    self.store_entry(r, V(el), V(Sc()))
+            return V(r)
+        if name in ("itertools.tee", "tee") and args:
+            a = self.coll((key, "a"), site, self.elems(args[0]))
+            b = self.coll((key, "b"), site, self.elems(args[0]))
+            self.cell(a).order = self.cell(b).order = self.order_of(args[0])
+            return V(Tup((V(a), V(b)), site))
         if name in ("io.StringIO", "StringIO"):
             r = self.coll(key, site)
             for a in args:
@@ -2514,7 +2583,7 @@ class Interp:
                     src = self.cell(sh)
                     r = self.obj((key, "copy", sh.key), src.ci, site)
                     for n, fv in list(src.fields.items()):
-                        self.set_field(r, n, self.attr(V(sh), n, call, env, fr) if src.ci is not None and src.ci.is_dataclass else fv, strong=False)
+                        self.set_field(r, n, self.attr(V(sh), n, call, env, fr) if self.is_record(src.ci) else fv, strong=False)
                     for n, fv in kwargs.items():
                         self.cell(r).fields[n] = fv if len(args[0]) == 1 else self.cell(r).fields.get(n, E) | fv
                         self.version += 1
